@@ -264,20 +264,23 @@ func TestC03Net(t *testing.T) {
 		xfer  bool // sent to the transfer port (base port + 1)
 	}
 	// the well-behaved client's download through the transfer port, before and after the storm
-	download := func(when string) {
+	var dlMu sync.Mutex // one download of the sentinel at a time (its requests share one connection)
+	tryDownload := func(when string) string {
+		dlMu.Lock()
+		defer dlMu.Unlock()
 		r, err := sentinel.request(hlref.TranDownloadFile, 60*time.Second, hlref.F(hlref.FFileName, []byte("f.txt")))
 		if err != nil || r.Err != 0 {
 			if !alive() {
-				t.Fatalf("VERIF-VIOLATION C03 the server process terminated (%s):\n%s", when, childLog())
+				return fmt.Sprintf("VERIF-VIOLATION C03 the server process terminated (%s):\n%s", when, childLog())
 			}
-			t.Fatalf("VERIF-INCONCLUSIVE %s: download request of the well-behaved client not granted within 60 s: %v", when, err)
+			return fmt.Sprintf("VERIF-INCONCLUSIVE %s: download request of the well-behaved client not granted within 60 s: %v", when, err)
 		}
 		ref, _ := r.Get(hlref.FRefNum)
 		var r4 [4]byte
 		copy(r4[:], ref)
 		c, err := dialFrom("127.0.0.2", port+1, 10*time.Second)
 		if err != nil {
-			t.Fatalf("VERIF-VIOLATION C03 %s: the well-behaved client cannot reach the transfer port (base port + 1) for a granted download: %v\n%s", when, err, childLog())
+			return fmt.Sprintf("VERIF-VIOLATION C03 %s: the well-behaved client cannot reach the transfer port (base port + 1) for a granted download: %v\n%s", when, err, childLog())
 		}
 		defer c.Close()
 		c.Write(hlref.Preamble(r4, 0))
@@ -293,9 +296,81 @@ func TestC03Net(t *testing.T) {
 		}
 		if !bytes.Contains(got, []byte("the well-behaved client's content")) {
 			if !alive() {
+				return fmt.Sprintf("VERIF-VIOLATION C03 the server process terminated (%s):\n%s", when, childLog())
+			}
+			return fmt.Sprintf("VERIF-VIOLATION C03 %s: the well-behaved client's granted download delivered %d bytes that do not hold the file's data within 60 s", when, len(got))
+		}
+		return ""
+	}
+	download := func(when string) {
+		if e := tryDownload(when); e != "" {
+			t.Fatalf("%s", e)
+		}
+	}
+	// a burst: k downloads are granted one after the other, then all k transfer connections are opened at the same
+	// instant (a client fetching many files): each must deliver its file
+	burst := func(when string, k int) {
+		dlMu.Lock()
+		defer dlMu.Unlock()
+		var refs [][4]byte
+		for i := 0; i < k; i++ {
+			r, err := sentinel.request(hlref.TranDownloadFile, 60*time.Second, hlref.F(hlref.FFileName, []byte("f.txt")))
+			if err != nil || r.Err != 0 {
+				if !alive() {
+					t.Fatalf("VERIF-VIOLATION C03 the server process terminated (%s):\n%s", when, childLog())
+				}
+				t.Fatalf("VERIF-INCONCLUSIVE %s: download request %d of a burst not granted within 60 s: %v", when, i, err)
+			}
+			ref, _ := r.Get(hlref.FRefNum)
+			var r4 [4]byte
+			copy(r4[:], ref)
+			refs = append(refs, r4)
+		}
+		res := make([]string, k)
+		var wg sync.WaitGroup
+		start := make(chan struct{})
+		for i := range refs {
+			wg.Add(1)
+			go func(i int) {
+				defer wg.Done()
+				<-start
+				c, err := dialFrom("127.0.0.2", port+1, 10*time.Second)
+				if err != nil {
+					res[i] = fmt.Sprintf("cannot connect: %v", err)
+					return
+				}
+				defer c.Close()
+				c.Write(hlref.Preamble(refs[i], 0))
+				c.SetReadDeadline(time.Now().Add(60 * time.Second))
+				var got []byte
+				buf := make([]byte, 4096)
+				for !bytes.Contains(got, []byte("the well-behaved client's content")) {
+					n, err := c.Read(buf)
+					got = append(got, buf[:n]...)
+					if err != nil {
+						res[i] = fmt.Sprintf("%d bytes without the file's data, then %v", len(got), err)
+						return
+					}
+				}
+			}(i)
+		}
+		close(start)
+		wg.Wait()
+		bad := 0
+		first := ""
+		for _, r := range res {
+			if r != "" {
+				bad++
+				if first == "" {
+					first = r
+				}
+			}
+		}
+		if bad > 0 {
+			if !alive() {
 				t.Fatalf("VERIF-VIOLATION C03 the server process terminated (%s):\n%s", when, childLog())
 			}
-			t.Fatalf("VERIF-VIOLATION C03 %s: the well-behaved client's granted download delivered %d bytes that do not hold the file's data within 60 s", when, len(got))
+			t.Fatalf("VERIF-VIOLATION C03 %s: of %d granted downloads whose transfer connections were opened at the same instant, %d did not deliver the file within 60 s (first: %s)", when, k, bad, first)
 		}
 	}
 	base := c03BaseSimple()
@@ -359,6 +434,7 @@ func TestC03Net(t *testing.T) {
 	}
 	sentinel.startReader()
 	download("before the storm")
+	burst("before the storm", 40)
 	// "all its resources released": the user list must converge to the one well-behaved client.  No wall-clock
 	// allowance decides: a count that is still falling is slowness (busy machine), a count that stays above one
 	// for 60 s while the server answers is a leak; 5 minutes without convergence is inconclusive.
@@ -423,7 +499,22 @@ func TestC03Net(t *testing.T) {
 				c.Close()
 			}(p)
 		}
+		// while the batch is in flight the well-behaved client keeps downloading: its transfer connections reach the
+		// listener among the hostile ones
+		dlErr := make(chan string, 1)
+		go func() {
+			for k := 0; k < 3; k++ {
+				if e := tryDownload(fmt.Sprintf("while hostile connections %d-%d are being made", lo, hi)); e != "" {
+					dlErr <- e
+					return
+				}
+			}
+			dlErr <- ""
+		}()
 		wg.Wait()
+		if e := <-dlErr; e != "" {
+			t.Fatalf("%s", e)
+		}
 		if !alive() && strings.Contains(childLog(), "address already in use") {
 			t.Fatalf("VERIF-INCONCLUSIVE the child could not bind its ports (taken by another process)")
 		}
@@ -433,6 +524,7 @@ func TestC03Net(t *testing.T) {
 		converge(fmt.Sprintf("after hostile connections %d-%d were made", lo, hi))
 	}
 	download("after the storm")
+	burst("after the storm", 40)
 	if r, err := sentinel.request(hlref.TranKeepAlive, 60*time.Second); err != nil || r.Err != 0 {
 		if !alive() {
 			t.Fatalf("VERIF-VIOLATION C03 the server process terminated:\n%s", childLog())
